@@ -309,7 +309,7 @@ class Run:
             pass
         oracle = area.get("oracle")
         nontrivial = area.get("nontrivial")
-        reported = 0
+        pending_concrete, pending_diff = [], []
         with open(cases_p) as fc, open(impl_p) as fi, open(model_p) as fm:
             for c, i, m in zip(fc, fi, fm):
                 c, i, m = c.rstrip("\n"), i.rstrip("\n"), m.rstrip("\n")
@@ -327,22 +327,38 @@ class Run:
                         why = oracle(c, i)
                     except Exception as e:   # an oracle crash must not hide anything
                         why = "oracle error: %r" % (e,)
-                known = self.is_known(name, c, i, why) if self.known else False
+                known = self.is_known(name, c, i, why) if (self.known or (why or "").startswith("KNOWN:")) else False
                 if i != m or why:
                     if known:
                         continue
                     acov["mismatches"] += 1 if i != m else 0
-                    if reported < 5:
-                        reported += 1
-                        if why:
-                            what = "property oracle fails on the implementation (area %s, %s): %s" % (name, label, why)
-                        else:
-                            what = "correspondence broken (area %s, %s): model and implementation differ" % (name, label)
-                        self.add_violation(what, {"correspondence": name, "case": c, "impl_output": i, "model_output": m,
-                                                  "oracle": why}, concrete=bool(why))
+                    # keep a few of each kind; concrete property failures are reported first
+                    bucket = pending_concrete if why else pending_diff
+                    if len(bucket) < 5:
+                        bucket.append((c, i, m, why))
+        self.flush_pending(name, label, pending_concrete, pending_diff)
+
+    def flush_pending(self, name, label, pending_concrete, pending_diff):
+        for (c, i, m, why) in (pending_concrete + pending_diff)[:5]:
+            if why:
+                what = "property oracle fails on the implementation (area %s, %s): %s" % (name, label, why)
+            else:
+                what = "correspondence broken (area %s, %s): model and implementation differ" % (name, label)
+            self.add_violation(what, {"correspondence": name, "case": c, "impl_output": i, "model_output": m,
+                                      "oracle": why}, concrete=bool(why))
 
     def is_known(self, area, case, impl, why):
+        # an oracle may attribute a failure to a recorded finding: "KNOWN:<tag>: explanation"
+        if why and why.startswith("KNOWN:"):
+            tag = why.split(":", 2)[1]
+            for k in self.known:
+                if k.get("oracle_tag") == tag and k.get("area") in (None, area):
+                    k["_hit"] = k.get("_hit", 0) + 1
+                    return True
+            return False
         for k in self.known:
+            if "case_regex" not in k:
+                continue
             if k.get("area") == area and re.search(k["case_regex"], case):
                 if k.get("impl_regex") and not re.search(k["impl_regex"], impl):
                     continue
